@@ -302,11 +302,15 @@ func runProperty(p *Property, tier, repo, only string) int {
 			}
 		}
 		rep := RunRule(fx, rule)
-		hit := false
-		for _, o := range rep.Obs {
-			if o.Status == "violation" && strings.Contains(o.Key, rule.Fixture) {
-				hit = true
+		hit := true
+		for _, inst := range strings.Split(rule.Fixture, ",") {
+			one := false
+			for _, o := range rep.Obs {
+				if o.Status == "violation" && strings.Contains(o.Key, inst) {
+					one = true
+				}
 			}
+			hit = hit && one
 		}
 		controls[rn] = map[string]any{"fixture_instance": rule.Fixture, "reported": hit}
 		if !hit {
